@@ -398,6 +398,24 @@ impl Rw {
             Stmt::Expr(Expr::ForLoop(f), _) => {
                 let (base, links) = unchain(&f.expr);
                 let n = names(&links);
+                // (g') for mut col in M.column_iter_mut() { B }: the `for` spelling of (g)
+                if n == ["column_iter_mut"] {
+                    if let Some(cid) = pat_ident(&f.pat) {
+                        let cp = f.pat.clone();
+                        let body = f.body.stmts.clone();
+                        let mut out: Vec<Stmt> = vec![];
+                        out.push(parse_quote!(let __n = #base.ncols();));
+                        out.push(parse_quote!(let mut __i: usize = 0;));
+                        out.push(parse_quote!(while __i < __n {
+                            let #cp = #base.__take_column(__i);
+                            #(#body)*
+                            #base.__put_column(__i, #cid);
+                            __i = __vp_succ(__i);
+                        }));
+                        self.note("X4g", line);
+                        return Some(out);
+                    }
+                }
                 let (ap, bp) = tuple2(&f.pat)?;
                 let body = f.body.stmts.clone();
                 // (b) for (idx, mut col) in M.column_iter_mut().enumerate() { B }
